@@ -46,6 +46,13 @@ def make_leaf(label):
 KidLeaf, PlainLeaf, DeepLeaf, ExtraLeaf, SubWorker = (make_leaf(x) for x in ("Kid", "Plain", "Deep", "Extra", "SubWorker"))
 
 
+class Namespace:
+    """Component classes may live in a namespace class: 'module:Namespace.Inner.Kid' is a valid reference."""
+
+    class Inner:
+        Kid = KidLeaf
+
+
 class SubRoot(Component):
     TYPES = tuple(type(f"SubRootRes{i}", (), {}) for i in range(3))
 
@@ -71,7 +78,7 @@ class Root(Component):
     def __init__(self, **kw):
         LOG.append(("init", "Root", kw))
         spelling = HARD["spelling"]
-        tp = {0: KidLeaf, 1: "harness.c14:KidLeaf", 2: "c14leaf", 3: None}[spelling]
+        tp = {0: KidLeaf, 1: "harness.c14:KidLeaf", 2: "c14leaf", 3: None, 4: "harness.c14:Namespace.Inner.Kid"}[spelling]
         alias = HARD["alias"]
         # the hard-coded defaults are module-level data shared by every start: passed as they are (no copy)
         if tp is None:
@@ -91,7 +98,7 @@ def install_entry_points():
 
 HARD_KINDS = ["absent", "scalar", "dict"]
 EXT_KINDS = ["absent", "scalar", "None", "dict"]
-SPELL = ["class object", "'module:attr' reference", "entry point name", "omitted (alias names the type)"]
+SPELL = ["class object", "'module:attr' reference", "entry point name", "omitted (alias names the type)", "'module:attr' reference with a dotted attribute path"]
 
 
 def hard_val(kind, tag):
@@ -115,7 +122,7 @@ def ref_merge(o, v):
 
 
 def params(tier):
-    return [P("h1", 0, 2), P("e1", 0, 3), P("h2", 0, 2), P("e2", 0, 3), P("spelling", 0, 3), P("slash", 0, 2),
+    return [P("h1", 0, 2), P("e1", 0, 3), P("h2", 0, 2), P("e2", 0, 3), P("spelling", 0, 4), P("slash", 0, 2),
             P("extra", 0, 3), P("deep", 0, 1), P("kidnone", 0, 1), P("nestedstart", 0, 1), P("innerctx", 0, 1)]
 
 
@@ -123,7 +130,7 @@ def params(tier):
 def fn(a, tier):
     install_entry_points()
     h1, e1, h2, e2 = pick(a["h1"], 3), pick(a["e1"], 4), pick(a["h2"], 3), pick(a["e2"], 4)
-    spelling, slash = pick(a["spelling"], 4), pick(a["slash"], 3)
+    spelling, slash = pick(a["spelling"], 5), pick(a["slash"], 3)
     suffix = [None, "special", "caf\u00e9_\u53d7\u4fe12"][slash]  # any non-empty run of word characters is a valid resource name
     extra = pick(a["extra"], 4)
     deep, kidnone = (1, 0) if tier == "quick" else (pick(a["deep"], 2), pick(a["kidnone"], 2))
